@@ -19,11 +19,34 @@ class Unsupported(AnalysisError):
     pass
 
 
+class IdentityUndetermined(AnalysisError):
+    """`a is b` for two equal values that are no singletons (ints outside the small-int cache, strings, bytes, tuples):
+    the answer depends on whether the two are the very same object - for a value that arrived from the wire or was computed
+    it is False, for the constant compared with itself it is True.  Callers take the decision both ways."""
+
+
+def _identical(a, b) -> bool:
+    if a is b and (a is None or isinstance(a, bool)):
+        return True
+    if type(a) is not type(b):
+        return False
+    if a != b:
+        return False
+    # equal values of one type: enum members, None, booleans and the small ints CPython caches are one object each
+    if a is None or isinstance(a, bool) or type(a).__name__ == "EnumVal" or isinstance(a, Record):
+        return True
+    if type(a) is int and -5 <= a <= 256:
+        return True
+    if isinstance(a, (int, float, str, bytes, tuple, frozenset)):
+        raise IdentityUndetermined(f"`is` between two equal {type(a).__name__} values ({a!r}): identity is not equality for them")
+    return a is b
+
+
 _CMP = {
     "==": lambda a, b: a == b, "!=": lambda a, b: a != b, "<": lambda a, b: a < b,
     "<=": lambda a, b: a <= b, ">": lambda a, b: a > b, ">=": lambda a, b: a >= b,
-    "is": lambda a, b: a is b or (type(a) is type(b) and a == b),
-    "is not": lambda a, b: not (a is b or (type(a) is type(b) and a == b)),
+    "is": lambda a, b: _identical(a, b),
+    "is not": lambda a, b: not _identical(a, b),
     "in": lambda a, b: a in b, "not in": lambda a, b: a not in b,
 }
 _BIN = {
